@@ -9,10 +9,13 @@ package ice
 //
 // ops (tokens after "agent"):
 //   new <cfgA> <cfgB|->        cfg = k=v,...: lite max disc fail ka ci hw sw pw rw (ms) renom ucp blk=a+b tb u p
-//   addlocal  <A|B> <ty> <net> <addr> <prio> <rel|->      addremote <A|B> <ty> <net> <addr> <prio> <rel|->
+//   addlocal  <A|B> <ty> <net> <addr> <prio> <rel|->      addremote <A|B> <ty> <net> <addr> <prio> <rel|-> [form]
+//     form (default 0): spelling of the address literal the remote candidate is signalled with: 0 = canonical,
+//     1 = another literal of the same address (udp4: IPv4-mapped "::ffff:10.0.0.3"; udp6: expanded "fd00:0:0:0:0:0:0:3").
+//     The digest marks a remote candidate whose Address() is not the canonical literal with "~1" after its address id.
 //   start <A|B> <ctl> <ru> <rp>    creds <A|B> <ru> <rp>   adv <ms>   deliver|drop|dup <k>
 //   inject <A|B> <localAddr> <src> <msgspec>   data <A|B> <localAddr> <src> <len> <stunlike>
-//   write <A|B> <len> <stunlike>   writepair <A|B> <id> <len> <stunlike>   read <A|B>
+//   write <A|B> <len> <stunlike>   writepair <A|B> <id> <len> <stunlike>   read <A|B> [cap]   (cap = size of the caller's buffer; absent = receiveMTU)
 //   renom <A|B> <laddr> <ridx> <value>   restart <A|B> <u> <p>   close <A|B>   nat <src> <mapped>   block <src> <dst>   mark <label>   end
 // address id k: ip id k/16, port 5000+k%16; net 0 = udp4 (10.0.0.<ip+1>), 1 = udp6 (fd00::<ip+1>).
 // credentials are tokens (u, p); the real strings are tok+"_ufrag" / tok+"_password_0123456789abcd"; "_" = empty.
@@ -301,8 +304,33 @@ func vNet(n int) string {
 	return "udp4"
 }
 
-func vNewCand(ty, netw, addr, prio int, rel string) (Candidate, error) {
+// vLiteral: the address literal of form `form` for the address id (see the header comment).
+func vLiteral(netw, addr, form int) string {
 	ua := vAddr(netw, addr)
+	if form == 0 {
+		return ua.IP.String()
+	}
+	if netw == 1 {
+		return fmt.Sprintf("fd00:0:0:0:0:0:0:%x", addr/16+1)
+	}
+	return "::ffff:" + ua.IP.String()
+}
+
+// vForm: 0 when the candidate's Address() is the canonical literal of its address, else 1.
+func vForm(c Candidate) int {
+	if c.Address() == canonicalAddr(c.addrPort().Addr()).String() {
+		return 0
+	}
+	return 1
+}
+
+func vNewCand(ty, netw, addr, prio int, rel string) (Candidate, error) {
+	return vNewCandForm(ty, netw, addr, prio, rel, 0)
+}
+
+func vNewCandForm(ty, netw, addr, prio int, rel string, form int) (Candidate, error) {
+	ua := vAddr(netw, addr)
+	lit := vLiteral(netw, addr, form)
 	relAddr, relPort := "", 0
 	if rel != "-" {
 		if n, _ := strconv.Atoi(rel); n != 0 {
@@ -312,13 +340,13 @@ func vNewCand(ty, netw, addr, prio int, rel string) (Candidate, error) {
 	}
 	switch CandidateType(ty) {
 	case CandidateTypeHost:
-		return NewCandidateHost(&CandidateHostConfig{Network: "udp", Address: ua.IP.String(), Port: ua.Port, Component: 1, Priority: uint32(prio)})
+		return NewCandidateHost(&CandidateHostConfig{Network: "udp", Address: lit, Port: ua.Port, Component: 1, Priority: uint32(prio)})
 	case CandidateTypeServerReflexive:
-		return NewCandidateServerReflexive(&CandidateServerReflexiveConfig{Network: "udp", Address: ua.IP.String(), Port: ua.Port, Component: 1, Priority: uint32(prio), RelAddr: relAddr, RelPort: relPort})
+		return NewCandidateServerReflexive(&CandidateServerReflexiveConfig{Network: "udp", Address: lit, Port: ua.Port, Component: 1, Priority: uint32(prio), RelAddr: relAddr, RelPort: relPort})
 	case CandidateTypePeerReflexive:
-		return NewCandidatePeerReflexive(&CandidatePeerReflexiveConfig{Network: "udp", Address: ua.IP.String(), Port: ua.Port, Component: 1, Priority: uint32(prio), RelAddr: relAddr, RelPort: relPort})
+		return NewCandidatePeerReflexive(&CandidatePeerReflexiveConfig{Network: "udp", Address: lit, Port: ua.Port, Component: 1, Priority: uint32(prio), RelAddr: relAddr, RelPort: relPort})
 	case CandidateTypeRelay:
-		return NewCandidateRelay(&CandidateRelayConfig{Network: "udp", Address: ua.IP.String(), Port: ua.Port, Component: 1, Priority: uint32(prio), RelAddr: relAddr, RelPort: relPort})
+		return NewCandidateRelay(&CandidateRelayConfig{Network: "udp", Address: lit, Port: ua.Port, Component: 1, Priority: uint32(prio), RelAddr: relAddr, RelPort: relPort})
 	}
 	return nil, fmt.Errorf("bad candidate type")
 }
@@ -564,7 +592,11 @@ func (s *vSession) digest(h *vAgentH) string {
 						}
 					}
 				}
-				rem = append(rem, fmt.Sprintf("%d@%d.%d:p%d:r%s:lr%s", c.Type(), ni, vAddrID(c.addrPort()), c.Priority(), rel, vMsSince(s.epoch, c.LastReceived())))
+				fm := ""
+				if f := vForm(c); f != 0 {
+					fm = fmt.Sprintf("~%d", f)
+				}
+				rem = append(rem, fmt.Sprintf("%d@%d.%d%s:p%d:r%s:lr%s", c.Type(), ni, vAddrID(c.addrPort()), fm, c.Priority(), rel, vMsSince(s.epoch, c.LastReceived())))
 			}
 			for _, c := range a.localCandidates[nt] {
 				loc = append(loc, fmt.Sprintf("%d@%d.%d:p%d:ls%s", c.Type(), ni, vAddrID(c.addrPort()), c.Priority(), vMsSince(s.epoch, c.LastSent())))
@@ -718,7 +750,11 @@ func (s *vSession) exec(t []string) string {
 		return s.render("ok")
 	case "addremote":
 		h := ag(t[1])
-		c, err := vNewCand(vAtoi(t[2]), vAtoi(t[3]), vAtoi(t[4]), vAtoi(t[5]), t[6])
+		form := 0
+		if len(t) > 7 {
+			form = vAtoi(t[7])
+		}
+		c, err := vNewCandForm(vAtoi(t[2]), vAtoi(t[3]), vAtoi(t[4]), vAtoi(t[5]), t[6], form)
 		if err != nil {
 			return s.render("err:cand")
 		}
@@ -846,8 +882,13 @@ func (s *vSession) exec(t []string) string {
 			return s.render(vErr(err))
 		}
 		// non-blocking read: start the Read, let the bubble settle, and if it is still blocked (empty
-		// buffer) release it through a read deadline in the past
-		buf := make([]byte, receiveMTU)
+		// buffer) release it through a read deadline in the past.  The caller's buffer has `cap` bytes
+		// (default receiveMTU); a queued datagram longer than that comes back as (cap, io.ErrShortBuffer).
+		bufLen := receiveMTU
+		if len(t) > 2 {
+			bufLen = vAtoi(t[2])
+		}
+		buf := make([]byte, bufLen)
 		type rr struct {
 			n   int
 			err error
@@ -864,7 +905,13 @@ func (s *vSession) exec(t []string) string {
 		}
 		_ = c.SetReadDeadline(time.Time{})
 		synctest.Wait()
+		if r.err == io.ErrShortBuffer {
+			return s.render(fmt.Sprintf("short:%d", r.n))
+		}
 		if r.err != nil {
+			if r.n != 0 {
+				return s.render(fmt.Sprintf("err+n:%d:%s", r.n, vErr(r.err)))
+			}
 			return s.render("empty")
 		}
 		return s.render(fmt.Sprintf("read:%d", r.n))
